@@ -1,7 +1,7 @@
 #!/bin/sh
 # Confirms a seeded change and runs checks against it, on a scratch copy of /repo.
 # usage: tools/seedtest.sh <dir with patch.diff and demo.py> [--baseline] <ID> [ID...]
-SD="$1"; shift
+SD="$(cd "$1" && pwd)"; shift
 BASE=0; [ "$1" = "--baseline" ] && { BASE=1; shift; }
 S="$(mktemp -d /tmp/vf-seed-XXXXXX)"
 if [ $BASE -eq 1 ]; then rsync -a --exclude .git --exclude '*.pyc' --exclude __pycache__ --exclude docs /repo/ "$S/";
